@@ -44,6 +44,9 @@ const (
 	ErrHDefault     = "default"
 	ErrHCustom      = "custom"             // writes a status (gin: AbortWithStatus, gin's idiom)
 	ErrHNonAborting = "custom-nonaborting" // gin only: writes a status without aborting the chain
+	// WithErrorHandler(nil): the Config documentation of all five integrations says "If nil, a
+	// default handler ... is used" - the default behaviour is what is expected
+	ErrHNil = "nil-option"
 )
 
 // Opts is one option set of ScopeMiddleware + Handle.
@@ -52,7 +55,7 @@ type Opts struct {
 	NMW       int    `json:"nmw"`
 	Recovery  bool   `json:"recovery"`  // Handle: WithPanicRecovery(true)
 	HandleH   string `json:"handleh"`   // default | custom (panic / scope-error / resolution-error handlers)
-	CloseH    string `json:"closeh"`    // default | custom CloseErrorHandler
+	CloseH    string `json:"closeh"`    // default | custom CloseErrorHandler | nil-option (WithCloseErrorHandler(nil): "If nil, errors are logged")
 	FwRecover bool   `json:"fwrecover"` // framework-level recover middleware outermost (else the driver / http.Server recovers)
 }
 
